@@ -42,7 +42,7 @@ def scope(tier):
 
 def shards(tier):
     out = [dict(f="F0"), dict(f="F1"), dict(f="F4"), dict(f="F5"),
-           dict(f="F6"), dict(f="F8"), dict(f="F9")]
+           dict(f="F6"), dict(f="F8"), dict(f="F9"), dict(f="F10")]
     out += [dict(f="F2a", k=k) for k in range(16)]
     out += [dict(f="F2b", k=k) for k in range(16)]
     out += [dict(f="F3", k=k) for k in range(16)]
@@ -121,11 +121,16 @@ def judge(case, acc):
     """case: dict(targets=[[x, y, [cores]], ...] in insertion order)"""
     from rig.machine_control.regions import compress_flood_fill_regions
     targets = {}
+    given = {}
     for x, y, cs in case["targets"]:
         targets[(x, y)] = set(cs)
+        # "as_list": the cores are given as a list in which each core
+        # appears twice (any iterable of core numbers is accepted)
+        given[(x, y)] = (list(cs) + list(cs)) if case["recipe"].get(
+            "as_list") else set(cs)
     acc.evaluations += 1
     try:
-        pairs = list(compress_flood_fill_regions(targets))
+        pairs = list(compress_flood_fill_regions(given))
     except Exception as e:
         acc.violation(dict(kind="exception", exc=type(e).__name__),
                       compact(case), "compress_flood_fill_regions raised "
@@ -495,6 +500,67 @@ def F8(tier, acc):
     acc.traces += acc.transitions
 
 
+def F10(tier, acc):
+    """Idle chips (listed with no cores) and repeated requests."""
+    from rig.machine_control.regions import RegionCoreTree
+    # (a) blocks full except for chips that are listed with an empty core set
+    for size, (x0, y0) in ((4, (0, 0)), (4, (20, 40)), (16, (16, 32)),
+                           (64, (64, 128))):
+        chips = chips_of(x0, y0, size)
+        for idle in ([chips[0]], [chips[-1]], [chips[5], chips[6]],
+                     chips[:size], chips[:len(chips) // 2]):
+            for cores in ([3], [3, 17]):
+                rec = dict(blocks=[dict(x0=x0, y0=y0, size=size, cores=cores,
+                                        minus=[list(c) for c in idle])],
+                           extra=[[c[0], c[1], []] for c in idle])
+                run_recipe(rec, "F10 block %d with %d idle chips listed"
+                           % (size, len(idle)), acc)
+                run_recipe(dict(rec, extra_first=True),
+                           "F10 block %d, idle chips listed first" % size,
+                           acc)
+    run_recipe(dict(extra=[[1, 1, []], [2, 2, []]]), "F10 only idle chips",
+               acc)
+    run_recipe(dict(extra=[[1, 1, []], [2, 2, [4]], [3, 3, []]]),
+               "F10 one loaded chip among idle ones", acc)
+    # (b) every core given twice
+    for size, (x0, y0) in ((4, (0, 0)), (4, (20, 40)), (16, (16, 32))):
+        chips = chips_of(x0, y0, size)
+        for minus in ([], [chips[0]], [chips[-1]], [chips[3], chips[7]]):
+            rec = dict(blocks=[dict(x0=x0, y0=y0, size=size, cores=[1, 2],
+                                    minus=[list(c) for c in minus])],
+                       as_list=True)
+            run_recipe(rec, "F10 block %d minus %d, cores given twice"
+                       % (size, len(minus)), acc)
+    # (c) add_core histories with repetitions on the tree itself: a block
+    # minus k chips, then m of the present chips added again
+    for size, (x0, y0) in ((4, (8, 12)), (16, (32, 48))):
+        chips = chips_of(x0, y0, size)
+        for k in (1, 2, 3):
+            present = chips[k:]
+            for again in (1, k, k + 1, len(present)):
+                acc.evaluations += 1
+                acc.nontrivial += 1
+                t = RegionCoreTree()
+                seq = [(x, y, 1) for x, y in present] + \
+                    [(x, y, 1) for x, y in present[:again]]
+                try:
+                    for x, y, p in seq:
+                        t.add_core(x, y, p)
+                    pairs = sorted(t.get_regions_and_coremasks())
+                    msg = check_pairs(pairs, {c: {1} for c in present})
+                except Exception as e:
+                    msg = "raised %s: %s" % (type(e).__name__, e)
+                if msg:
+                    acc.violation(
+                        dict(kind="repeated_add"),
+                        dict(recipe=dict(f10=True), desc="F10"),
+                        "F10 tree: block %d at (%d,%d) minus its first %d "
+                        "chips, then the first %d present chips added "
+                        "again: %s" % (size, x0, y0, k, again, msg),
+                        size=k + again)
+    acc.sample(dict(family="F10"))
+
+
 def F9_pool():
     pool = []
     for size in (4, 16, 64):
@@ -547,6 +613,9 @@ def run_shard(params, tier, acc):
 
 def replay(case, acc):
     rec = case["recipe"]
+    if "f10" in rec:
+        F10("quick", acc)
+        return
     if "history" in rec:
         # module state can only come from the calls made before it
         F9("quick", acc, upto=rec["f9_index"])
